@@ -71,6 +71,7 @@ type Plan struct {
 	Rule       string `json:"rule"`
 	Level      string `json:"level"`
 	Race       bool   `json:"race"`
+	RaceEvery  int    `json:"race_every"` // > 0: every RaceEvery-th run uses the -race build
 }
 
 type ReplayFile struct {
@@ -269,6 +270,8 @@ func spinningRepoFrame(out string) string {
 	return ""
 }
 
+var raceOracle = "C13.race"
+
 var raceBlockRE = regexp.MustCompile(`(?s)WARNING: DATA RACE\n(.*?)\n==================`)
 
 // raceReports extracts data-race reports whose both stacks contain a frame of the repository
@@ -325,7 +328,7 @@ func raceReports(out string) []Violation {
 			continue
 		}
 		seen[sig] = true
-		vs = append(vs, Violation{Oracle: "C13.race", Signature: sig, Detail: "data race between " + a + " and " + b + "\n" + tail(blk, 3000)})
+		vs = append(vs, Violation{Oracle: raceOracle, Signature: sig, Detail: "data race between " + a + " and " + b + "\n" + tail(blk, 3000)})
 	}
 	return vs
 }
@@ -388,7 +391,11 @@ func main() {
 			*budget = 12 * time.Minute
 		}
 	}
-	if plan.Race && raceBin == "" {
+	useRace := func(idx int) bool { return plan.Race || plan.RaceEvery > 0 && idx%plan.RaceEvery == plan.RaceEvery-1 }
+	if *prop != "" && *prop != "C13" {
+		raceOracle = *prop + ".race"
+	}
+	if (plan.Race || plan.RaceEvery > 0) && raceBin == "" {
 		fmt.Println("HARNESS-ERROR plan wants the race build but no -racebin given")
 		os.Exit(2)
 	}
@@ -404,7 +411,7 @@ func main() {
 		go func() {
 			defer wg.Done()
 			for j := range jobsCh {
-				ro := runSim(ctx, plan.Race, "-prop", *prop, "-tier", *tier, "-idx", fmt.Sprint(j.idx), "-seed", fmt.Sprint(*seed))
+				ro := runSim(ctx, useRace(j.idx), "-prop", *prop, "-tier", *tier, "-idx", fmt.Sprint(j.idx), "-seed", fmt.Sprint(*seed))
 				if ro.res == nil {
 					ro.res = &Result{Prop: *prop, Tier: *tier, Idx: j.idx, Seed: *seed}
 					if ro.crash != "" || ro.timeout {
@@ -445,7 +452,7 @@ func main() {
 		k := v.Oracle + "\x00" + v.Signature
 		g := groups[k]
 		if g == nil {
-			g = &group{v: v, race: plan.Race}
+			g = &group{v: v, race: useRace(r.Idx)}
 			groups[k] = g
 			order = append(order, k)
 		}
@@ -502,7 +509,7 @@ func main() {
 			return g.runs[i].Idx < g.runs[j].Idx
 		})
 		rep := g.runs[0]
-		rf, rerr := minimise(ctx, rep, g.v, plan.Race, unlisted <= 2)
+		rf, rerr := minimise(ctx, rep, g.v, useRace(rep.Idx), unlisted <= 2)
 		name := fmt.Sprintf("%s-%s-%d-%d.json", *prop, sanitize(g.v.Oracle+"-"+g.v.Signature), *seed, rep.Idx)
 		path := filepath.Join(*verif, "replays", name)
 		b, _ := json.MarshalIndent(rf, "", " ")
@@ -797,6 +804,9 @@ func doReplay(ctx context.Context, path string) int {
 	if err := json.Unmarshal(b, rf); err != nil {
 		fmt.Println("HARNESS-ERROR", err)
 		return 2
+	}
+	if rf.Property != "" && rf.Property != "C13" {
+		raceOracle = rf.Property + ".race"
 	}
 	ro := runSim(ctx, rf.Race, "-replay", path, "-full")
 	if ro.res == nil {
